@@ -62,7 +62,7 @@ typedef struct {
 
 /* ---------------------------------------------------------------- instrumented basic rules */
 static KSI_CTX *ksi; static KSI_Signature *sig; static KSI_DataHash *g_hash; static KSI_CalendarHashChain *g_cal; static KSI_PublicationsFile *g_pub;
-static uint64_t n_cloned;
+static uint64_t n_cloned, n_refused_setfallback, n_refused_setfallback_accepted;
 static Chain *g_chain;
 static unsigned char g_out[MAXSLOT];
 static int g_log[MAXLOG], g_nlog, g_fill, g_cur_pol, g_td_stale;
@@ -238,6 +238,12 @@ static int chain_build(Chain *c, const char *text) {
 	 * fallback was set: a clone has to keep the fallback chain of the policy it was cloned from */
 	for (p = c->npol - 1; p >= 0; p--) {
 		if (p + 1 < c->npol && KSI_Policy_setFallback(ksi, c->pol[p], c->pol[p + 1]) != KSI_OK) { fprintf(stderr, "KSI_Policy_setFallback failed\n"); exit(3); }
+		/* for a third of the chains: calls that have to be refused (no fallback / no policy / no context given) follow; a refused call changes nothing */
+		if ((c->text_hash >> 20) % 3 == 0) {
+			int r1 = KSI_Policy_setFallback(ksi, c->pol[p], NULL), r2 = KSI_Policy_setFallback(ksi, NULL, c->pol[p]), r3 = (p + 1 < c->npol) ? KSI_Policy_setFallback(NULL, c->pol[p], c->pol[p + 1]) : KSI_INVALID_ARGUMENT;
+			n_refused_setfallback += 3;
+			if (r1 == KSI_OK || r2 == KSI_OK || r3 == KSI_OK) n_refused_setfallback_accepted++;
+		}
 		if ((c->text_hash & 1) && ((c->text_hash >> (8 + p)) & 1)) {
 			KSI_Policy *cl = NULL;
 			if (KSI_Policy_clone(ksi, c->pol[p], &cl) != KSI_OK || cl == NULL) { fprintf(stderr, "KSI_Policy_clone failed\n"); exit(3); }
@@ -551,6 +557,8 @@ int main(int argc, char **argv) {
 	vh_count("final_OK", n_final[0]); vh_count("final_NA", n_final[1]); vh_count("final_FAIL", n_final[2]); vh_count("final_internal_error", n_final[3]);
 	vh_count("final_NA_from_untouched_result", n_final[4]);
 	vh_count("policies_replaced_by_their_clone", n_cloned);
+	vh_count("refused_setFallback_calls", n_refused_setfallback);
+	if (n_refused_setfallback_accepted) vh_viol("setFallback:invalid-arguments-accepted", "-", "KSI_Policy_setFallback with a missing context, policy or fallback reported success (%llu chains)", (unsigned long long)n_refused_setfallback_accepted);
 	vh_count("verify_with_policy_wrapper_calls", n_wrapper_calls);
 	vh_count("fallback_policy_runs", n_fallback_runs); vh_count("rule_invocations", n_calls); vh_count("cases_with_4plus_rules_invoked", n_deep);
 	for (i = 1; i <= MAXPOL; i++) { char nm[48]; snprintf(nm, sizeof(nm), "chains_of_%d_policies", i); vh_count(nm, n_chainlen[i]); snprintf(nm, sizeof(nm), "cases_%d_policies_ran", i); vh_count(nm, n_ranpol[i]); }
